@@ -243,7 +243,6 @@ bad:
 
 /* ---------------------------------------------------------------- one case */
 static uint64_t n_final[5], n_fallback_runs, n_calls, n_chainlen[MAXPOL + 1], n_ranpol[MAXPOL + 1], n_viol_total, n_deep, n_deep10;
-static uint64_t n_fp;
 static char seen_keys[64][160]; static int n_seen_keys;
 static int verbose;
 
@@ -284,7 +283,7 @@ static void run_case(Chain *c, KSI_VerificationContext *vc) {
 	{ /* distinct = chain shape + executed path (invoked rules and their outcomes) as predicted by the reference */
 		uint64_t h = c->text_hash;
 		for (i = 0; i < ref_nlog; i++) h = vh_mix(h, (uint64_t)ref_log[i] * 8 + g_out[ref_log[i]]);
-		if (n_fp < 400000) { n_fp++; vh_fp(h); } /* local cap: the python side keeps all of them in memory */
+		if (vh_fp_n < 400000) vh_fp(h); /* local cap on distinct fingerprints: the python side keeps all of them in memory */
 	}
 	n_final[fin.rc != KSI_OK ? 3 : fin.res]++;
 	if (fin.rc == KSI_OK && g_out[fin.last] == O_UNTOUCHED) n_final[4]++;
